@@ -353,6 +353,26 @@ def replay_case(arg):
         v2 = hll(x_in)
         if not interp.close(v2, exp_v):
             fail('HistoryFree', 'value_after_S1', dict(got=float(v2), expected=exp_v))
+    # ---- the caller's parameter buffer refilled IN PLACE with another point: the result follows the content ----------
+    if not fails and n > 0:
+        x2 = x.copy()
+        for k_ in range(n):
+            if rec['layout'][k_][0] != 'beta':
+                x2[k_] = round(float(x[k_] * (1.0 + 0.05 * rng.uniform(-1, 1))), 4)
+        # (pooled / heterogeneous values and centred individual parameters stay consistent: every slot is its own entry)
+        x_in[...] = x2
+        try:
+            with warnings.catch_warnings():
+                warnings.simplefilter('error', RuntimeWarning)
+                v2 = hll(x_in)
+                s2 = hll.evaluateS1(x_in)[0]
+            cnt['evaluations'] = cnt.get('evaluations', 0) + 2
+            e2 = interp.value(ref, x2)
+            if not (interp.close(v2, e2) and interp.close(s2, e2)):
+                fail('Denotation', 'value_after_buffer_refill', dict(got=[float(v2), float(s2)], expected=e2))
+        except Exception as e:
+            fail('Evaluable', type(e).__name__, dict(op='buffer refill', error=repr(e)))
+        x_in[...] = x
     # ---- outside the support: plain evaluation and evaluation with sensitivities agree on finiteness -----------
     # (C03, last sentence).  One slot at a time is set to zero or to a negative number -- a scale of the error model or
     # of a population sub-model, an individual parameter of a log-normal / truncated Gaussian dimension, or a harmless
